@@ -50,7 +50,7 @@ typedef struct {
 } Bitstrm;
 
 // Get m_cnt number of bits and update bffer pointers and offset.
-#define GET_BITS(bits, m_pu4_buf, bit_ofst, cur_word, nxt_word, m_cnt) \
+#define GET_BITS(bits, m_pu4_buf, bit_ofst, cur_word, nxt_word, m_cnt, m_buf_end) \
     {                                                                  \
         bits = (cur_word << bit_ofst) >> (WORD_SIZE - m_cnt);          \
         bit_ofst += m_cnt;                                             \
@@ -62,7 +62,8 @@ typedef struct {
             uint32_t pu4_word_tmp;                                     \
             cur_word = nxt_word;                                       \
             /* Getting the next word */                                \
-            pu4_word_tmp = *(m_pu4_buf++);                             \
+            pu4_word_tmp = dec_bits_load_word(m_pu4_buf, m_buf_end);   \
+            m_pu4_buf++;                                               \
                                                                        \
             bit_ofst -= WORD_SIZE;                                     \
             /* Swapping little endian to big endian conversion*/       \
